@@ -45,7 +45,6 @@ Definition equiv (a b : tstate) : bool := forallb (same_at a b) (keys a ++ keys 
 (* equal as maps except possibly at p *)
 Definition frame (p : Z) (a b : tstate) : bool :=
   forallb (fun q => (q =? p) || same_at a b q) (keys a ++ keys b).
-Definition lk (p : Z) (s : tstate) : list req := match lookup p s with Some rs => rs | None => [] end.
 
 (* ---------- the statement of C08, as a decision procedure on observations ---------- *)
 
@@ -169,11 +168,6 @@ Fixpoint spec_steps (parts : list Z) (prev : tstate) (ops : list xop) (sos : lis
   end.
 
 (* keys whose last event so far is a broadcast (not overwritten by a received snapshot since) *)
-Definition recv_key (o : xop) : option Z :=
-  match o with
-  | XMsg mt key (Some _) => if mt =? 0 then Some (atoi_key key) else None
-  | _ => None
-  end.
 Fixpoint fresh_keys (acc : list Z) (ops : list xop) (sos : list sobs) : list Z :=
   match ops, sos with
   | o :: ops', so :: sos' =>
